@@ -431,6 +431,8 @@ struct World {
     /// disconnect requests N issued during the current step
     n_disconnects: Vec<u64>,
     handler_calls_in_step: u64,
+    /// events N received from the attacker, and N's routing timer events, for the Coq model
+    trace: Vec<MEv>,
 }
 
 const MAX_CALLS_PER_STEP: u64 = 400_000;
@@ -484,6 +486,7 @@ impl World {
             to_attacker: BTreeMap::new(),
             n_disconnects: vec![],
             handler_calls_in_step: 0,
+            trace: vec![],
         };
         for c in ATT_CONNS {
             w.att.insert(c, AttConn::default());
@@ -501,6 +504,20 @@ impl World {
             w.adopt_block(blk, true).await?;
         }
         Ok(w)
+    }
+
+    /// N's timer handlers (routing, then consensus); the routing tick is an input of the model (it resets
+    /// limiter windows when it writes the peer state file and purges long-disconnected entries)
+    async fn n_timer(&mut self, ms: u64, routing_only: bool) -> Result<(), PanicRec> {
+        self.trace.push(MEv { now: self.now, idx: 0, term: format!("ETick {}", gal::n(ms)), outcome: 0, finding: String::new(), repeat: 1 });
+        if routing_only {
+            let d = Duration::from_millis(ms);
+            self.n.calls += 1;
+            futures_catch(AssertUnwindSafe(self.n.routing.process_timer_event(d))).await.map_err(|m| take_panic("N", "routing::process_timer_event", m))?;
+            Ok(())
+        } else {
+            self.n.timer(ms).await
+        }
     }
 
     fn advance(&mut self, ms: u64) {
@@ -707,10 +724,7 @@ impl World {
                 break;
             }
             last = d;
-            let n = self.n.name;
-            futures_catch(AssertUnwindSafe(self.n.routing.process_timer_event(Duration::from_millis(2000))))
-                .await
-                .map_err(|m| Stop::Panic(take_panic(n, "routing::process_timer_event", m)))?;
+            self.n_timer(2000, true).await?;
             futures_catch(AssertUnwindSafe(self.b.routing.process_timer_event(Duration::from_millis(2000))))
                 .await
                 .map_err(|m| Stop::Panic(take_panic("B", "routing::process_timer_event", m)))?;
@@ -841,6 +855,8 @@ enum BlockK {
     BadCreatorSig,
     /// id field changed (re-signed)
     WrongId,
+    /// id field set to 0 (re-signed)
+    IdZero,
     /// parent hash unknown, id near the tip / far away
     UnknownParent(bool),
     IssuanceTx,
@@ -851,6 +867,8 @@ enum BlockK {
     BadBurnfee,
     /// timestamp not after the parent's
     OldTs,
+    /// first transaction names the same funded input twice
+    DupInput,
 }
 #[derive(Clone, Debug, PartialEq)]
 enum ServeK {
@@ -902,6 +920,11 @@ fn rnd32(rng: &mut Rng) -> [u8; 32] {
 }
 fn rnd_bytes(rng: &mut Rng, n: usize) -> Vec<u8> {
     (0..n).map(|_| rng.next() as u8).collect()
+}
+/// the attacker uses a primary (0) and a secondary (1) key per connection, never the same key on two
+/// connections (merging entries of one key is C17's subject)
+fn conn_key(conn: u64, which: u8) -> u8 {
+    (conn as u8) + 1 + 10 * which
 }
 fn tx_type(n: u8) -> TransactionType {
     match n {
@@ -1058,7 +1081,7 @@ impl World {
                     RespK::UnsetVersion(key) => (*key, true, (0, 0, 0)),
                     RespK::OtherMinor(key) => (*key, true, (1, 3, 3)),
                 };
-                let (pk, sk) = keypair(key);
+                let (pk, sk) = keypair(conn_key(conn, key));
                 let ch = self.att.get(&conn).and_then(|a| a.challenge).unwrap_or([7; 32]);
                 let mut sig = sign(&ch, &sk);
                 if !good_sig {
@@ -1237,6 +1260,10 @@ impl World {
                 block.id += 3;
                 dirty = true;
             }
+            BlockK::IdZero => {
+                block.id = 0;
+                dirty = true;
+            }
             BlockK::UnknownParent(near) => {
                 block.previous_block_hash = rnd32(rng);
                 if !*near {
@@ -1247,6 +1274,19 @@ impl World {
             BlockK::BadBurnfee => {
                 block.burnfee += 1;
                 dirty = true;
+            }
+            BlockK::DupInput => {
+                if let Some(sl) = self.a_slips.first().cloned() {
+                    let mut t = make_tx(&[sl.clone(), sl.clone()], &[(pk_a, sl.amount)], &sk_a, ts);
+                    t.generate(&pk_a, 0, 0);
+                    block.transactions.insert(0, t);
+                    block.merkle_root = block.generate_merkle_root(false, false);
+                    block.generate_pre_hash();
+                    block.sign(&sk_a);
+                    // Block::generate refuses this block ("double-spend detected"): identity is computed by hand
+                    block.generate_pre_hash();
+                    block.generate_hash();
+                }
             }
             _ => {}
         }
@@ -1400,7 +1440,7 @@ impl World {
                 Some(p) => {
                     let key = match p.public_key {
                         None => 0,
-                        Some(k) => (1..=6u8).find(|n| keypair(*n).0 == k).map(|n| n as u64).unwrap_or(99),
+                        Some(k) => (1..=30u8).find(|n| keypair(*n).0 == k).map(|n| n as u64).unwrap_or(99),
                     };
                     let (mc, ml) = parse_limiter(&format!("{:?}", p.message_limiter));
                     let (hc, hl) = parse_limiter(&format!("{:?}", p.handshake_limiter));
@@ -1437,6 +1477,9 @@ fn classify(p: &PanicRec, act: &Act) -> Option<&'static str> {
     }
     if in_file("routing_thread.rs") && m.contains("attempt to add with overflow") && matches!(act, Act::AMsg(_, Msg::GhostReq(IdK::Max, ..)) | Act::AFlood(_, Msg::GhostReq(IdK::Max, ..), _)) {
         return Some("ghost-request-id-max-overflow");
+    }
+    if in_file("verification_thread.rs") && m.contains("double-spend detected") {
+        return Some("verify-block-generate-unwrap");
     }
     if in_file("golden_ticket.rs") && m.contains("left == right") {
         if p.handler.contains("NewTransaction") {
@@ -1490,6 +1533,10 @@ struct Runner {
     w: World,
     out: CaseOut,
     log_eval: bool,
+    /// oracle bit for the model: Blockchain::generate_last_shared_ancestor answers 0 for the request at hand
+    ghost_anc0: bool,
+    /// rate limiter quotas found not enforced during the current step
+    limiter_failures: Vec<String>,
 }
 
 impl Runner {
@@ -1508,14 +1555,14 @@ impl Runner {
             Ok(Some(())) => 0,
         };
         let now = self.w.now;
-        match self.out.trace.last_mut() {
+        match self.w.trace.last_mut() {
             Some(last) if repeat_of && last.term == term && last.outcome == outcome && last.idx == idx && last.now == now && outcome != 3 => last.repeat += 1,
-            _ => self.out.trace.push(MEv { now, idx, term, outcome, finding: String::new(), repeat: 1 }),
+            _ => self.w.trace.push(MEv { now, idx, term, outcome, finding: String::new(), repeat: 1 }),
         }
         r.map(|_| outcome)
     }
 
-    async fn msg_term(&self, m: &Msg, verified: bool, data_len: usize, cur_challenge: bool) -> String {
+    async fn msg_term(&self, conn: u64, m: &Msg, verified: bool, data_len: usize, cur_challenge: bool) -> String {
         match m {
             Msg::Challenge => "ENet (Some MChallenge)".to_string(),
             Msg::Response(k) => {
@@ -1525,7 +1572,7 @@ impl Runner {
                     RespK::UnsetVersion(key) => (*key, cur_challenge, false),
                     RespK::OtherMinor(key) => (*key, cur_challenge, false),
                 };
-                format!("ENet (Some (MResponse {} {} {}))", gal::boolean(sig), gal::boolean(ver), gal::n(key as u64))
+                format!("ENet (Some (MResponse {} {} {}))", gal::boolean(sig), gal::boolean(ver), gal::n(conn_key(conn, key) as u64))
             }
             Msg::BlockTag => "ENet (Some MBlock)".to_string(),
             Msg::Tx(k) => {
@@ -1542,7 +1589,7 @@ impl Runner {
             Msg::Spv => "ENet (Some MSpv)".to_string(),
             Msg::Services(n) => format!("ENet (Some (MServices {}))", gal::n(*n as u64)),
             Msg::GhostChain(_) => "ENet (Some MGhostChain)".to_string(),
-            Msg::GhostReq(..) => "ENet (Some MGhostReq)".to_string(),
+            Msg::GhostReq(i, _, _) => format!("ENet (Some (MGhostReq {}))", gal::boolean(*i == IdK::Max && self.ghost_anc0)),
             Msg::App(..) => "ENet (Some MApp)".to_string(),
             Msg::ResultMsg(..) => "ENet (Some MResult)".to_string(),
             Msg::ErrorMsg(..) => "ENet (Some MError)".to_string(),
@@ -1553,19 +1600,55 @@ impl Runner {
 
     async fn send_msg(&mut self, conn: u64, m: &Msg, rng: &mut Rng, repeat_of: bool) -> Result<(), Stop> {
         let buf = self.w.attacker_message(conn, m, rng).await;
+        if let Msg::GhostReq(..) = m {
+            // buffer = tag, id (8), hash (32), fork id (32)
+            let id = u64::from_be_bytes(buf[1..9].try_into().unwrap());
+            let fork: [u8; 32] = buf[41..73].try_into().unwrap();
+            let bc = self.w.n.blockchain.read().await;
+            self.ghost_anc0 = futures_catch(AssertUnwindSafe(async { bc.generate_last_shared_ancestor(id, fork) })).await.map(|a| a == 0).unwrap_or(true);
+        }
         let data_len = match m {
             Msg::Tx(TxK::GtLen(n)) => *n,
             _ => 0,
         };
         let cur_challenge = self.w.att.get(&conn).map(|a| a.challenge.is_some()).unwrap_or(false);
         let before = self.w.n.verification.processed_msgs.total;
+        let sent_before: u64 = self.w.to_attacker.values().sum();
         // the verified bit is only known after the call: run, then patch the recorded term
-        let term0 = self.msg_term(m, false, data_len, cur_challenge).await;
+        let term0 = self.msg_term(conn, m, false, data_len, cur_challenge).await;
         let r = self.attack_event(conn, NetworkEvent::IncomingNetworkMessage { peer_index: conn, buffer: buf }, term0.clone(), repeat_of).await;
+        // the quotas are enforced: nothing is acted upon beyond them
+        if let Ok(0) = r {
+            let sent_now: u64 = self.w.to_attacker.values().sum();
+            let (mc, hc, kc) = {
+                let peers = self.w.n.peers.read().await;
+                match peers.index_to_peers.get(&conn) {
+                    Some(p) => (
+                        parse_limiter(&format!("{:?}", p.message_limiter)).0,
+                        parse_limiter(&format!("{:?}", p.handshake_limiter)).0,
+                        parse_limiter(&format!("{:?}", p.key_list_limiter)).0,
+                    ),
+                    None => (0, 0, 0),
+                }
+            };
+            let mut broken = vec![];
+            if mc > 100_000 {
+                broken.push(format!("message {} of the current second was processed (quota 100000)", mc));
+            }
+            if matches!(m, Msg::KeyList(_)) && kc > 100 {
+                broken.push(format!("key list {} of the current minute was accepted (quota 100)", kc));
+            }
+            if matches!(m, Msg::Challenge | Msg::Response(_)) && hc > 100 && sent_now > sent_before {
+                broken.push(format!("handshake message {} of the current minute was answered (quota 100)", hc));
+            }
+            for b in broken {
+                self.limiter_failures.push(b);
+            }
+        }
         let verified = self.w.n.verification.processed_msgs.total > before;
         if verified {
-            let t = self.msg_term(m, true, data_len, cur_challenge).await;
-            if let Some(last) = self.out.trace.last_mut() {
+            let t = self.msg_term(conn, m, true, data_len, cur_challenge).await;
+            if let Some(last) = self.w.trace.last_mut() {
                 if last.term == term0 {
                     last.term = t;
                 }
@@ -1588,7 +1671,7 @@ impl Runner {
                 self.w.b_may_connect = true;
                 self.w.advance(2100);
                 self.w.b.timer(2100).await?;
-                self.w.n.timer(2100).await?;
+                self.w.n_timer(2100, false).await?;
                 self.w.settle().await?;
             }
             Act::HDisconnect => {
@@ -1633,7 +1716,7 @@ impl Runner {
             }
             Act::Tick(ms) => {
                 self.w.advance(*ms);
-                self.w.n.timer(*ms).await?;
+                self.w.n_timer(*ms, false).await?;
                 self.w.b.timer(*ms).await?;
                 self.w.settle().await?;
             }
@@ -1713,7 +1796,7 @@ impl Runner {
                 let r = self.attack_event(f.idx, ev, kind.clone(), false).await;
                 let after = self.inv_count(f.idx).await;
                 if kind == "EFetched FAnnounced" {
-                    if let Some(last) = self.out.trace.last_mut() {
+                    if let Some(last) = self.w.trace.last_mut() {
                         last.term = format!("EFetched (FObserved {})", gal::n(after.saturating_sub(before)));
                     }
                 }
@@ -1795,7 +1878,7 @@ async fn run_case(spec: &CaseSpec) -> CaseOut {
             return CaseOut { build_error: Some(e), ..Default::default() };
         }
     };
-    let mut r = Runner { w, out: CaseOut::default(), log_eval: spec.log_eval };
+    let mut r = Runner { w, out: CaseOut::default(), log_eval: spec.log_eval, ghost_anc0: true, limiter_failures: vec![] };
     if r.log_eval {
         EVAL_ON.store(if std::env::var("C11_LOG").is_ok() { 2 } else { 1 }, Ordering::Relaxed);
     }
@@ -1873,7 +1956,7 @@ async fn run_case(spec: &CaseSpec) -> CaseOut {
                 EVAL_ON.store(0, Ordering::Relaxed);
                 let id = classify(&p, act);
                 let what = format!("{} panicked in {} at {}: {}", p.node, p.handler, p.loc, p.msg.chars().take(200).collect::<String>());
-                if let Some(last) = r.out.trace.last_mut() {
+                if let Some(last) = r.w.trace.last_mut() {
                     if last.outcome == 3 {
                         last.finding = id.unwrap_or("UNLISTED").to_string();
                     }
@@ -1886,6 +1969,11 @@ async fn run_case(spec: &CaseSpec) -> CaseOut {
                 break;
             }
         }
+        if !r.limiter_failures.is_empty() {
+            let f = r.limiter_failures[0].clone();
+            r.out.failures.push((pos, act.label(), None, format!("rate limit not enforced: {}", f)));
+            break;
+        }
         if r.w.n.calls + r.w.b.calls - calls0 > MAX_CALLS_PER_STEP {
             r.out.failures.push((pos, act.label(), None, "stall: handler call budget of one step exceeded".to_string()));
             break;
@@ -1897,12 +1985,16 @@ async fn run_case(spec: &CaseSpec) -> CaseOut {
                     if !changed.is_empty() {
                         let id = match act {
                             Act::AMsg(_, Msg::GhostChain(_)) | Act::AFlood(_, Msg::GhostChain(_), _) => Some("unsolicited-ghost-chain-accepted".to_string()),
+                            Act::AServe(ServeK::AsAnnounced) if served_kind == "WrongId" && changed.iter().any(|c| c.starts_with("chain")) => Some("block-id-gap-accepted".to_string()),
                             _ => None,
                         };
                         let txt: String = changed.join(" ;; ").chars().take(600).collect();
                         r.out.failures.push((pos, act.label(), id, format!("rejected input {} changed honest-visible state: {}", served_kind, txt)));
                         // the state is no longer what an honest run would have: the case ends here
-                        break;
+                        // (C11_CONTINUE=1: keep going, to look at the consequences of a listed finding)
+                        if std::env::var("C11_CONTINUE").is_err() {
+                            break;
+                        }
                     }
                 }
                 Err(m) => {
@@ -1914,6 +2006,7 @@ async fn run_case(spec: &CaseSpec) -> CaseOut {
     }
     EVAL_ON.store(0, Ordering::Relaxed);
     r.out.final_obs = r.w.conn_obs().await;
+    r.out.trace = std::mem::take(&mut r.w.trace);
     r.out.handler_calls = r.w.n.calls + r.w.b.calls;
     for (t, c) in &r.w.to_attacker {
         r.out.stats.push(("sent_to_attacker_tag".to_string(), format!("{:02}x{}", t, if *c > 9 { "10+".to_string() } else { c.to_string() })));
@@ -1957,27 +2050,30 @@ fn scripted(seed: u64) -> Vec<CaseSpec> {
     v.push(base_spec("ghost-request-no-key", seed, vec![Act::HConnect, Act::AConnect(2), Act::AMsg(2, Msg::GhostReq(IdK::Tip, HashK::Tip, HashK::Zero))]));
     // 3: 101 key lists in one minute, with and without evaluated debug! arguments
     v.push(base_spec("key-list-flood", seed, vec![Act::AConnect(2), Act::AFlood(2, Msg::KeyList(1), 101)]));
-    let mut c = base_spec("key-list-flood-logged", seed, cat(vec![handshake(2, 3), vec![Act::AFlood(2, Msg::KeyList(2), 101)]]));
+    let mut c = base_spec("key-list-flood-logged", seed, cat(vec![handshake(2, 0), vec![Act::AFlood(2, Msg::KeyList(2), 101)]]));
     c.log_eval = true;
     v.push(c);
     // 5: golden-ticket typed transaction with an empty payload
-    v.push(base_spec("gt-tx-len0", seed, cat(vec![vec![Act::HConnect], handshake(2, 3), vec![Act::AMsg(2, Msg::Tx(TxK::GtLen(0)))]])));
+    v.push(base_spec("gt-tx-len0", seed, cat(vec![vec![Act::HConnect], handshake(2, 0), vec![Act::AMsg(2, Msg::Tx(TxK::GtLen(0)))]])));
     // 6: fetched block whose golden ticket payload has 96 bytes
-    v.push(base_spec("gt-block-len96", seed, cat(vec![vec![Act::HConnect], handshake(2, 3), vec![Act::AAnnounce(2, BlockK::GtLen(96)), Act::AServe(ServeK::AsAnnounced)]])));
+    v.push(base_spec("gt-block-len96", seed, cat(vec![vec![Act::HConnect], handshake(2, 0), vec![Act::AAnnounce(2, BlockK::GtLen(96)), Act::AServe(ServeK::AsAnnounced)]])));
     // 7: fee-typed transaction without inputs, then the block-production timer
-    v.push(base_spec("typed-no-inputs-then-tick", seed, cat(vec![vec![Act::HConnect], handshake(2, 3), vec![Act::AMsg(2, Msg::Tx(TxK::TypedNoInputs(1))), Act::Tick(1000)]])));
+    v.push(base_spec("typed-no-inputs-then-tick", seed, cat(vec![vec![Act::HConnect], handshake(2, 0), vec![Act::AMsg(2, Msg::Tx(TxK::TypedNoInputs(1))), Act::Tick(1000)]])));
     // 8: valid block from the future, then the block-production timer
-    v.push(base_spec("future-block-then-tick", seed, cat(vec![vec![Act::HConnect], handshake(2, 3), vec![Act::AAnnounce(2, BlockK::FutureTs), Act::AServe(ServeK::AsAnnounced), Act::Tick(1000)]])));
-    // 9: key change on an authenticated entry (listed under C17)
-    v.push(base_spec("key-change", seed, cat(vec![handshake(2, 3), vec![Act::AMsg(2, Msg::Challenge), Act::AMsg(2, Msg::Response(RespK::Valid(4)))]])));
+    v.push(base_spec("future-block-then-tick", seed, cat(vec![vec![Act::HConnect], handshake(2, 0), vec![Act::AAnnounce(2, BlockK::FutureTs), Act::AServe(ServeK::AsAnnounced), Act::Tick(1000)]])));
+    v.push(base_spec("block-dup-input", seed, cat(vec![vec![Act::HConnect], handshake(2, 0), vec![Act::AAnnounce(2, BlockK::DupInput), Act::AServe(ServeK::AsAnnounced)]])));
+    v.push(base_spec("ghost-request-id-max", seed, cat(vec![vec![Act::HConnect], handshake(2, 0), vec![Act::AMsg(2, Msg::GhostReq(IdK::Max, HashK::Random, HashK::Random))]])));
+    v.push(base_spec("block-id-gap", seed, cat(vec![vec![Act::HConnect], handshake(2, 0), vec![Act::AAnnounce(2, BlockK::WrongId), Act::AServe(ServeK::AsAnnounced), Act::HBlock(false)]])));
+    // key change on an authenticated entry (listed under C17)
+    v.push(base_spec("key-change", seed, cat(vec![handshake(2, 0), vec![Act::AMsg(2, Msg::Challenge), Act::AMsg(2, Msg::Response(RespK::Valid(1)))]])));
     // 10: unsolicited ghost chain on a full node
     v.push(base_spec("ghost-chain-unsolicited", seed, vec![Act::HConnect, Act::AConnect(2), Act::AMsg(2, Msg::GhostChain(GcK::Extend(3, false))), Act::Tick(1000), Act::HBlock(false)]));
     // 11: handshake limiter
-    v.push(base_spec("handshake-flood", seed, vec![Act::AConnect(2), Act::AFlood(2, Msg::Challenge, 120), Act::AMsg(2, Msg::Response(RespK::Valid(3)))]));
+    v.push(base_spec("handshake-flood", seed, vec![Act::AConnect(2), Act::AFlood(2, Msg::Challenge, 120), Act::AMsg(2, Msg::Response(RespK::Valid(0)))]));
     // 12: message limiter (100 000 per second)
     v.push(base_spec("message-flood", seed, vec![Act::AConnect(3), Act::AFlood(3, Msg::Ping, 100_050), Act::AMsg(3, Msg::KeyList(1)), Act::Tick(1500), Act::AMsg(3, Msg::Ping)]));
     // 13: invalid-block limiter: eleven bad buffers
-    let mut a = cat(vec![vec![Act::HConnect], handshake(2, 3)]);
+    let mut a = cat(vec![vec![Act::HConnect], handshake(2, 0)]);
     for _ in 0..12 {
         a.push(Act::AAnnounceUnknown(2, IdK::TipPlus1));
         a.push(Act::AServe(ServeK::Garbage));
@@ -1989,12 +2085,15 @@ fn scripted(seed: u64) -> Vec<CaseSpec> {
     v.push(c);
     // 15: everything on an index that never connected
     let mut a = vec![Act::HConnect];
-    for m in [Msg::BlockTag, Msg::GhostReq(IdK::Max, HashK::Random, HashK::Random), Msg::KeyList(5), Msg::Tx(TxK::GtLen(0)), Msg::Response(RespK::Valid(3)), Msg::Undecodable(2)] {
+    for m in [Msg::BlockTag, Msg::GhostReq(IdK::Max, HashK::Random, HashK::Random), Msg::KeyList(5), Msg::Tx(TxK::GtLen(0)), Msg::Response(RespK::Valid(0)), Msg::Undecodable(2)] {
         a.push(Act::AMsg(IDX_NEVER, m));
     }
     a.push(Act::ADisconnect(IDX_NEVER, true));
     a.push(Act::ADisconnect(IDX_NEVER, false));
     v.push(base_spec("never-connected-index", seed, a));
+    if std::env::var("C11_EXPERIMENT").is_ok() {
+        v.push(base_spec("x-ghost-max-then-requests", seed, vec![Act::HConnect, Act::AConnect(2), Act::AMsg(2, Msg::Response(RespK::Valid(0))), Act::AMsg(2, Msg::GhostChain(GcK::HostileIds)), Act::AMsg(2, Msg::ChainReq(IdK::Zero, HashK::Zero, HashK::Zero)), Act::AMsg(2, Msg::GhostReq(IdK::One, HashK::Zero, HashK::Zero)), Act::Tick(1000), Act::HBlock(false)]));
+    }
     v
 }
 
@@ -2011,7 +2110,7 @@ fn random_msg(rng: &mut Rng) -> Msg {
     match r {
         0..=59 => Msg::Challenge,
         60..=159 => {
-            let key = *rng.pick(&[3u8, 3, 4, 5]);
+            let key = *rng.pick(&[0u8, 0, 0, 1]);
             match rng.below(10) {
                 0..=5 => Msg::Response(RespK::Valid(key)),
                 6..=7 => Msg::Response(RespK::BadSig(key)),
@@ -2041,12 +2140,14 @@ fn random_msg(rng: &mut Rng) -> Msg {
         570..=599 => Msg::Ping,
         600..=619 => Msg::Spv,
         620..=659 => Msg::Services(rng.below(4) as usize),
-        660..=719 => Msg::GhostChain(match rng.below(4) {
+        660..=679 => Msg::GhostChain(match rng.below(4) {
             0 => GcK::Empty,
             1 => GcK::HostileIds,
             _ => GcK::Extend(1 + rng.below(3) as usize, rng.chance(1, 2)),
         }),
-        720..=779 => Msg::GhostReq(pick_idk(rng), pick_hashk(rng), pick_hashk(rng)),
+        680..=719 => Msg::Services(rng.below(4) as usize),
+        720..=749 => Msg::GhostReq(pick_idk(rng), pick_hashk(rng), pick_hashk(rng)),
+        750..=779 => Msg::HeaderHash(pick_hashk(rng), pick_idk(rng)),
         780..=809 => Msg::App(rng.next() as u32, rng.below(40) as usize),
         810..=839 => Msg::ResultMsg(rng.next() as u32, rng.below(40) as usize),
         840..=869 => Msg::ErrorMsg(rng.next() as u32, rng.below(40) as usize),
@@ -2064,12 +2165,14 @@ fn random_blockk(rng: &mut Rng) -> BlockK {
         41..=44 => BlockK::FutureTs,
         45..=50 => BlockK::BadMerkle,
         51..=56 => BlockK::BadCreatorSig,
-        57..=62 => BlockK::WrongId,
+        57..=59 => BlockK::WrongId,
+        60..=62 => BlockK::IdZero,
         63..=70 => BlockK::UnknownParent(rng.chance(1, 2)),
         71..=75 => BlockK::IssuanceTx,
         76..=81 => BlockK::HostileHop,
         82..=89 => BlockK::TypedTx(*rng.pick(&[1u8, 3, 4, 5, 7, 8])),
-        90..=94 => BlockK::BadBurnfee,
+        90..=92 => BlockK::BadBurnfee,
+        93..=94 => BlockK::DupInput,
         _ => BlockK::OldTs,
     }
 }
@@ -2103,7 +2206,7 @@ fn random_case(rng: &mut Rng, thorough: bool) -> CaseSpec {
             39..=44 => {
                 // a complete handshake on the connection
                 steps.push(Act::AConnect(conn));
-                Act::AMsg(conn, Msg::Response(RespK::Valid(if conn == 3 { 4 } else { 3 })))
+                Act::AMsg(conn, Msg::Response(RespK::Valid(0)))
             }
             45..=74 => Act::AMsg(conn, random_msg(rng)),
             75..=76 => Act::AFlood(conn, random_msg(rng), *rng.pick(&[3u32, 20, 101, 130])),
@@ -2152,9 +2255,9 @@ fn plan(seed: u64, tier: &str) -> Vec<CaseSpec> {
         Ok(x) => x.parse().unwrap(),
         Err(_) => {
             if tier == "thorough" {
-                4000
+                30000
             } else {
-                500
+                4000
             }
         }
     };
@@ -2186,7 +2289,7 @@ fn coq_case(spec: &CaseSpec, out: &CaseOut) -> String {
         .iter()
         .map(|e| format!("({}, {}, {}, {}, {}, \"{}\")", gal::n(e.now), gal::n(e.idx), e.term, gal::n(e.repeat), gal::n(e.outcome), e.finding))
         .collect();
-    format!("mkCase {} {} {} {}", gal::boolean(spec.log_eval), gal::boolean(spec.spv_n), gal::list(&evs), gal::nllist(&out.final_obs))
+    format!("mkCase {} {} {} {} {}", gal::boolean(spec.log_eval), gal::boolean(spec.spv_n), gal::boolean(cfg!(debug_assertions)), gal::list(&evs), gal::nllist(&out.final_obs))
 }
 
 // ------------------------------------------------------------------ worker: runs cases, one line of output per fact
@@ -2369,7 +2472,9 @@ fn supervisor(args: &Args) {
                         }
                         "@@END" => {
                             if let Some((i, acc)) = cur.take() {
-                                summary.evaluations += parts.get(3).and_then(|x| x.trim().parse::<u64>().ok()).unwrap_or(0).max(1);
+                                // evaluations = handler calls made on the two real nodes
+                                let f: Vec<&str> = line.split('\t').collect();
+                                summary.evaluations += f.get(4).and_then(|x| x.trim().parse::<u64>().ok()).unwrap_or(0).max(1);
                                 for (id, what) in &acc.fails {
                                     if id == "-" {
                                         let desc = match &acc.min {
@@ -2390,9 +2495,9 @@ fn supervisor(args: &Args) {
                                 }
                                 // placeholder cases keep indices aligned with cases.jsonl
                                 while coq_cases.len() < i {
-                                    coq_cases.push("mkCase false false [] []".to_string());
+                                    coq_cases.push("mkCase false false false [] [[2; 0]; [3; 0]; [4; 0]; [9; 0]]".to_string());
                                 }
-                                coq_cases.push(acc.coq.unwrap_or("mkCase false false [] []".to_string()));
+                                coq_cases.push(acc.coq.unwrap_or("mkCase false false false [] [[2; 0]; [3; 0]; [4; 0]; [9; 0]]".to_string()));
                                 next = i + 1;
                             }
                         }
@@ -2425,7 +2530,7 @@ fn supervisor(args: &Args) {
             summary.oracle_failure(i, &format!("{} during {}", why_dead, acc.last_step), &acc.desc);
             summary.count("stalled_or_died", "1");
             while coq_cases.len() <= i {
-                coq_cases.push("mkCase false false [] []".to_string());
+                coq_cases.push("mkCase false false false [] [[2; 0]; [3; 0]; [4; 0]; [9; 0]]".to_string());
             }
             next = i + 1;
         } else if why_dead.is_empty() {
@@ -2437,7 +2542,7 @@ fn supervisor(args: &Args) {
         }
     }
     while coq_cases.len() < total {
-        coq_cases.push("mkCase false false [] []".to_string());
+        coq_cases.push("mkCase false false false [] [[2; 0]; [3; 0]; [4; 0]; [9; 0]]".to_string());
     }
     summary.case_descs = descs;
     summary.notes.push("back-pressure is not exercised: all channels have capacity 1 000 000 and are drained after every event; in the real node RoutingThread::send_to_verification_thread spins without yielding while every verification channel is full (it relies on run_thread's is_ready_to_process gate and on the verification tasks running on other worker threads), and the `send().await` calls towards the consensus / routing / mining channels block while those are full".to_string());
